@@ -389,10 +389,13 @@ def _judge_file(ctx, case, base, path, records, old, events, tag):
     opens = [e for e in events if e[1] == target and _is_write_open(e)]
     ctx.count("audit_write_opens", len(opens))
     ctx.count("audit_events", len(events))
-    ctx.check("save_opened_target_for_writing", len(opens) >= 1, det)
-    ctx.check("save_touched_only_target", all(e[1] == target for e in events), det)
-    ctx.check("no_other_file_created", sorted(os.listdir(base)) == [os.path.basename(target)],
-              lambda: det(directory=sorted(os.listdir(base))))
+    # How the file gets there is not part of the statement (an atomic write through a temporary file and a
+    # rename would be legitimate): the audit trace is evidence of what was observed, not a verdict.
+    ctx.count("observed:save_opened_target_for_writing" if len(opens) >= 1 else "observed:target_not_opened_for_writing")
+    if not all(e[1] == target for e in events):
+        ctx.count("observed:save_touched_other_paths")
+    if sorted(os.listdir(base)) != [os.path.basename(target)]:
+        ctx.count("observed:other_files_in_directory_after_save")
 
 
 def _judge_str(ctx, wl, records):
@@ -748,7 +751,7 @@ def gates(stats, tier):
                  "empty_worklist_gives_empty_file", "no_residue_of_previous_file", "str_shows_records",
                  "non_gwl_name_refused", "non_gwl_name_creates_no_file", "enter_starts_empty",
                  "exception_propagates_from_with_block", "file_written_when_block_left_by_exception",
-                 "save_opened_target_for_writing", "save_touched_only_target", "auto_save_equals_explicit_save"):
+                 "auto_save_equals_explicit_save"):
         if not c.get("rule:" + rule):
             r.append(f"deciding rule never evaluated: {rule}")
     for k in ("pre:longer", "pre:shorter", "pre:same", "pre:absent", "path:str", "path:path", "autosave_after_exception",
@@ -759,8 +762,8 @@ def gates(stats, tier):
         if not c.get(k):
             r.append(f"never observed: {k}")
     saves = c.get("saves", 0)
-    if c.get("rule:save_opened_target_for_writing", 0) != saves or c.get("audit_write_opens", 0) < saves or saves == 0:
-        r.append(f"audit hook: {c.get('audit_write_opens', 0)} write-opens of the target seen for {saves} saves")
+    if saves == 0 or c.get("audit_events", 0) == 0:
+        r.append(f"audit hook saw {c.get('audit_events', 0)} file-system events for {saves} saves")
     types = set(f.get("record_type", ()))
     for t in ("C", "W", "WD", "F", "B", "S", "A", "D", "R", "script:Aspirate", "script:Dispense", "script:Wash"):
         if t not in types:
